@@ -7,13 +7,20 @@ R1 order in `QueueManagerConnector.run` (CFG dominance / must-pass-through, batc
    registration would otherwise store its stale listing *after* the clear); the result is returned only through
    the exit edge of the test `job_id not in <listing of the latest poll>`, every further round re-polls, and
    `_scheduled_jobs.pop(job_id)` lies on every path from that exit edge to the function exit and nowhere before it.
+   "Nowhere before it" and "returned only through the exit edge" are also decided over the exception (`exc`) and
+   cancellation (`cexc`) edges of the CFG, finally bodies being duplicated per continuation: no removal of the id
+   (`pop` / `del`) and no return of the batch branch may be reachable from the function entry without crossing the
+   exit edge of the test.  A `finally:` / `except ...:` around the wait that deregisters the id (seeded C27-2) runs
+   when the waiting task is cancelled or a poll raises while the job is still queued; undeploy, which cancels exactly
+   the registered ids (R3), then leaves that job in the queue.  (A handler that first cancels the job itself and then
+   removes the id is reported too: run() has no such route today and it would need its own obligation.)
 R2 siblings: every concrete `_get_running_jobs` (Slurm, PBS, Flux -- enumerated through the class table) that is
    memoised is memoised on exactly the cache object `run` clears (`self._jobs_cache`), and every call site of
    `_get_running_jobs` in the program holds the jobs-cache lock.
 R3 `undeploy` cancels exactly the queued ids: the ids handed to `_remove_jobs` are collected by complete,
    unconditional iteration over `self._scheduled_jobs`; the map is emptied on every path; walking back from the
    emptying, the last read of the map is reached before any suspension point (otherwise an id registered by a
-   concurrent `run()` during that await is wiped without being cancelled -- finding S14, fires today); nothing
+   concurrent `run()` during that await is wiped without being cancelled -- finding S14, repaired in /repo); nothing
    outside `__init__`/`run`/`undeploy` writes `_scheduled_jobs` or clears/replaces `_jobs_cache`.
 R4 own result: the id returned by `_run_batch_command` is the one registered, tested, popped and passed to
    `_get_output` / `_get_returncode`, and the batch branch returns that return code.
@@ -21,8 +28,8 @@ R5 (added) locations are unwrapped exactly once: every sibling command (`_get_ou
    `_get_running_jobs`, `_remove_jobs`, `_run_batch_command`, ...) hands its own location parameter unchanged to
    `super().run`, whose non-batch branch applies `get_inner_location` once, and every caller inside
    `QueueManagerConnector` passes them a *wrapping* location (def-use count of `get_inner_location` applications,
-   through local maps).  `undeploy` passes an already unwrapped location to `_remove_jobs` -- finding S13, fires
-   today: with one-level stacking the second unwrap raises and no queued job is cancelled.
+   through local maps).  `undeploy` passing an already unwrapped location to `_remove_jobs` was finding S13
+   (repaired in /repo): with one-level stacking the second unwrap raises and no queued job is cancelled.
 
 Left out (DESIGN C27.R2 "key_maker=_const_key_maker" and "queries self._scheduled_jobs.keys()"): neither is a
 necessary condition.  `clear()` empties the cache whatever the keys are, and a listing that is *not* restricted
@@ -725,7 +732,7 @@ def r5(ctx):
 
 
 RULES = [("R1", r1), ("R2", r2), ("R3", r3), ("R4", r4), ("R5", r5)]
-FLOORS = {"R1": 9, "R2": 4, "R3": 7, "R4": 3, "R5": 23}
+FLOORS = {"R1": 10, "R2": 4, "R3": 7, "R4": 3, "R5": 23}
 
 RUN = f"{QMC}.run"
 UND = f"{QMC}.undeploy"
